@@ -34,8 +34,8 @@ import (
 )
 
 const (
-	c09BulkQuick, c09BombQuick       = 8, 23
-	c09BulkThorough, c09BombThorough = 16, 23
+	c09BulkQuick, c09BombQuick       = 8, 35
+	c09BulkThorough, c09BombThorough = 16, 35
 )
 
 func init() {
@@ -61,7 +61,7 @@ func init() {
 		MinEvals:    floor(100000, 2000000),
 		MinDistinct: floor(20000, 300000),
 		RequiredCells: func(string) []string {
-			cells := []string{"family/a-random", "family/b-mutants", "family/c-signed-malformed", "family/d-bad-key-material", "family/e-hostile-lengths", "family/f-policy-x-data", "bomb/cbor-list", "bomb/cbor-map", "bomb/json-list", "bomb/policy-not", "bomb/signed-deep-args", "bomb/signed-deep-pol", "bomb/selector-long", "bomb/policy-nested-any-failing", "bomb/policy-nested-all-passing", "bomb/policy-nested-and-or-not", "rss-measured", "past-first-layer"}
+			cells := []string{"family/a-random", "family/b-mutants", "family/c-signed-malformed", "family/d-bad-key-material", "family/e-hostile-lengths", "family/f-policy-x-data", "bomb/cbor-list", "bomb/cbor-map", "bomb/json-list", "bomb/policy-not", "bomb/signed-deep-args", "bomb/signed-deep-pol", "bomb/selector-long", "bomb/policy-nested-any-failing", "bomb/policy-nested-all-passing", "bomb/policy-nested-and-or-not", "bomb/car-zero-sections", "bomb/cbor-container-empty-entries", "bomb/json-whitespace", "bomb/json-wide-list", "bomb/selector-question-marks", "bomb/signed-wide-args", "bomb/signed-wide-pol", "rss-measured", "past-first-layer"}
 			for _, e := range []string{"token.FromSealed", "token.FromDagJson", "delegation.FromSealed", "invocation.FromSealed", "container.FromCbor", "container.FromCar", "container.FromCborBase64", "container.FromCarBase64", "policy.FromDagJson", "policy.FromIPLD", "Policy.Match", "selector.Parse", "Selector.Select", "did.Parse", "DID.PubKey", "args.Add", "literal.Any"} {
 				cells = append(cells, "entry/"+e)
 			}
@@ -782,8 +782,44 @@ type bomb struct {
 }
 
 func spliceDeep(typ string, field string, n int, asMap bool) []byte {
-	// a well-signed token whose `field` holds n nested arrays (or maps): the payload is
-	// encoded with a placeholder which is then replaced by the hand-made deep item.
+	// a well-signed token whose `field` holds n nested arrays (or maps)
+	var deep []byte
+	if field == "pol" {
+		// ["not", ["not", ... ["==", ".a", 1] ...]] wrapped in the statement list
+		deep = append(deep, 0x81)
+		for i := 0; i < n; i++ {
+			deep = append(deep, 0x82, 0x63, 'n', 'o', 't')
+		}
+		deep = append(deep, 0x83, 0x62, '=', '=', 0x62, '.', 'a', 0x01)
+	} else if asMap {
+		deep = append(bytes.Repeat([]byte{0xa1, 0x61, 0x61}, n), 0x01)
+	} else {
+		deep = append(bytes.Repeat([]byte{0x81}, n), 0x01)
+	}
+	return spliceItem(typ, field, n, deep)
+}
+
+// spliceWide: a well-signed token whose `field` holds one flat collection of n small items.
+func spliceWide(typ string, field string, n int) []byte {
+	var wide []byte
+	switch field {
+	case "pol":
+		wide = cborHead(4, uint64(n))
+		wide = append(wide, bytes.Repeat([]byte{0x83, 0x62, '=', '=', 0x62, '.', 'a', 0x01}, n)...)
+	case "meta":
+		wide = cborHead(4, uint64(n))
+		wide = append(wide, bytes.Repeat([]byte{0xa0}, n)...)
+	default:
+		wide = cborHead(4, uint64(n))
+		wide = append(wide, bytes.Repeat([]byte{0x01}, n)...)
+	}
+	return spliceItem(typ, field, n, wide)
+}
+
+// spliceItem builds a well-signed token whose `field` holds (args / meta: under the key
+// "deep") the hand-made CBOR item: the payload is encoded with a placeholder which is then
+// replaced by the item, and the result is signed.
+func spliceItem(typ string, field string, n int, deep []byte) []byte {
 	iss := gen.Ed(3)
 	spec := gen.RandomSpec(rand.New(rand.NewPCG(1, uint64(n))), typ, gen.SpecOpts{Issuer: iss, Minimal: true})
 	tk, err := spec.Build()
@@ -814,19 +850,6 @@ func spliceDeep(typ string, field string, n int, asMap bool) []byte {
 		return nil
 	}
 	enc := append(cborHead(2, uint64(len(marker))), marker...)
-	var deep []byte
-	if field == "pol" {
-		// ["not", ["not", ... ["==", ".a", 1] ...]] wrapped in the statement list
-		deep = append(deep, 0x81)
-		for i := 0; i < n; i++ {
-			deep = append(deep, 0x82, 0x63, 'n', 'o', 't')
-		}
-		deep = append(deep, 0x83, 0x62, '=', '=', 0x62, '.', 'a', 0x01)
-	} else if asMap {
-		deep = append(bytes.Repeat([]byte{0xa1, 0x61, 0x61}, n), 0x01)
-	} else {
-		deep = append(bytes.Repeat([]byte{0x81}, n), 0x01)
-	}
 	i := bytes.Index(data, enc)
 	if i < 0 {
 		return nil
@@ -892,6 +915,7 @@ func c09Bombs(w *mon.W, part, parts int) {
 		}
 	}
 	small := []int{4, 8, 16, 24, 32, 48, 64}
+	wideN := []int{100000, 1000000, 8 << 20, 24 << 20}
 	all := []series{
 		{"cbor-list", "token.FromSealed", func(n int) []byte { return append(bytes.Repeat([]byte{0x81}, n), 0x00) }, func(in []byte) { _, _, _ = token.FromSealed(in) }, 0, nil},
 		{"cbor-list", "container.FromCbor", func(n int) []byte { return append(bytes.Repeat([]byte{0x81}, n), 0x00) }, func(in []byte) { _, _ = container.FromCbor(in) }, 0, nil},
@@ -965,6 +989,56 @@ func c09Bombs(w *mon.W, part, parts int) {
 			}
 		}, 100000, nil},
 		{"did-long", "did.Parse", func(n int) []byte { return append([]byte("did:key:z"), bytes.Repeat([]byte("1"), n)...) }, func(in []byte) { _, _ = did.ToPubKey(string(in)) }, 1000000, nil},
+		// ---- repetition bombs: n is the number of repeated units of a flat (not nested) input
+		{"car-zero-sections", "container.FromCar", func(n int) []byte { return append(buildCAR(nil, -1, 0), make([]byte, n)...) }, func(in []byte) { _, _ = container.FromCar(in) }, 0, wideN},
+		{"car-zero-sections", "container.FromCarBase64Reader", func(n int) []byte {
+			return []byte(base64.StdEncoding.EncodeToString(append(buildCAR(nil, -1, 0), make([]byte, n)...)))
+		}, func(in []byte) { _, _ = container.FromCarBase64Reader(bytes.NewReader(in)) }, 0, wideN},
+		{"cbor-container-empty-entries", "container.FromCbor", func(n int) []byte {
+			b := append([]byte{0xa1, 0x66, 'c', 't', 'n', '-', 'v', '1'}, cborHead(4, uint64(n))...)
+			return append(b, bytes.Repeat([]byte{0x40}, n)...)
+		}, func(in []byte) { _, _ = container.FromCbor(in) }, 0, wideN},
+		{"cbor-indefinite-bytes-empty-chunks", "token.FromSealed", func(n int) []byte {
+			return append(append([]byte{0x82, 0x5f}, bytes.Repeat([]byte{0x40}, n)...), 0xff, 0xa0)
+		}, func(in []byte) { _, _, _ = token.FromSealed(in) }, 0, wideN},
+		{"json-whitespace", "token.FromDagJson", func(n int) []byte {
+			return append(append(bytes.Repeat([]byte{' ', '\n'}, n/2), []byte(`[{"/":{"bytes":"AA"}},{}]`)...), bytes.Repeat([]byte{'\t'}, n/2)...)
+		}, func(in []byte) { _, _ = token.FromDagJson(in) }, 0, wideN},
+		{"json-wide-list", "policy.FromDagJson", func(n int) []byte {
+			b := append([]byte(`[["and",[`), bytes.Repeat([]byte(`["==",".a",1],`), n)...)
+			return append(b, []byte(`["==",".a",1]]]]`)...)
+		}, func(in []byte) {
+			p, err := policy.FromDagJson(string(in))
+			if err == nil {
+				_, _ = p.Match(ref.Map(ref.E("a", ref.Int(1))).Node())
+				_, _ = p.PartialMatch(ref.Map(ref.E("b", ref.Int(1))).Node())
+			}
+		}, 1000000, wideN},
+		{"json-escapes", "token.FromDagJson", func(n int) []byte {
+			return append(append([]byte(`["`), bytes.Repeat([]byte(`\u0041`), n)...), []byte(`",{}]`)...)
+		}, func(in []byte) { _, _ = token.FromDagJson(in) }, 4000000, wideN},
+		{"selector-question-marks", "selector.Parse", func(n int) []byte { return append([]byte(".a"), bytes.Repeat([]byte{'?'}, n)...) }, func(in []byte) {
+			s, err := selector.Parse(string(in))
+			if err == nil {
+				_, _ = s.Select(ref.Map(ref.E("a", ref.Int(1))).Node())
+			}
+		}, 0, wideN},
+		{"selector-digits", "selector.Parse", func(n int) []byte {
+			return append(append([]byte(".["), bytes.Repeat([]byte{'9'}, n)...), ']')
+		}, func(in []byte) { _, _ = selector.Parse(string(in)) }, 0, wideN},
+		{"signed-wide-args", "invocation.FromSealed", func(n int) []byte { return spliceWide("inv", "args", n) }, func(in []byte) {
+			t, _, err := invocation.FromSealed(in)
+			if err == nil {
+				_ = len(t.Arguments().String())
+			}
+		}, 0, wideN},
+		{"signed-wide-meta", "token.FromSealed", func(n int) []byte { return spliceWide("dlg", "meta", n) }, func(in []byte) { _, _, _ = token.FromSealed(in) }, 0, wideN},
+		{"signed-wide-pol", "delegation.FromSealed", func(n int) []byte { return spliceWide("dlg", "pol", n) }, func(in []byte) {
+			t, _, err := delegation.FromSealed(in)
+			if err == nil {
+				_, _ = t.Policy().Match(ref.Map(ref.E("a", ref.Int(1))).Node())
+			}
+		}, 1000000, wideN},
 		{"ipld-deep-policy-node", "policy.FromIPLD", func(n int) []byte { return []byte(strconv.Itoa(n)) }, func(in []byte) {
 			n, _ := strconv.Atoi(string(in))
 			if n > 1000000 {
@@ -1004,7 +1078,7 @@ func c09Bombs(w *mon.W, part, parts int) {
 			switch {
 			case strings.HasPrefix(cell, "signed-deep-args"):
 				cell = "signed-deep-args"
-			case strings.HasPrefix(cell, "selector-"):
+			case cell == "selector-long" || cell == "selector-brackets":
 				cell = "selector-long"
 			}
 			w.Cover("bomb/" + cell)
